@@ -879,7 +879,7 @@ func HandleStore(deps ServerDeps, conn net.Conn, tag string, parts []string, sta
 			cleanedFlagsStr := flagSetToString(cleanedFlags)
 
 			// Move to Spam folder
-			err = MoveMessageToMailbox(userDB, messageID, state.SelectedMailboxID, "Spam", targetUserID, cleanedFlagsStr, internalDate)
+			err = MoveMessageToMailbox(userDB, messageID, state.SelectedMailboxID, uid, "Spam", targetUserID, cleanedFlagsStr, internalDate)
 			if err != nil {
 				log.Printf("Failed to move message %d to Spam: %v", messageID, err)
 			} else {
@@ -897,7 +897,7 @@ func HandleStore(deps ServerDeps, conn net.Conn, tag string, parts []string, sta
 			cleanedFlagsStr := flagSetToString(cleanedFlags)
 
 			// Move to INBOX
-			err = MoveMessageToMailbox(userDB, messageID, state.SelectedMailboxID, "INBOX", targetUserID, cleanedFlagsStr, internalDate)
+			err = MoveMessageToMailbox(userDB, messageID, state.SelectedMailboxID, uid, "INBOX", targetUserID, cleanedFlagsStr, internalDate)
 			if err != nil {
 				log.Printf("Failed to move message %d to INBOX: %v", messageID, err)
 			} else {
@@ -912,8 +912,9 @@ func HandleStore(deps ServerDeps, conn net.Conn, tag string, parts []string, sta
 		}
 
 		// Update flags in database (only if message wasn't moved)
-		updateQuery := "UPDATE message_mailbox SET flags = ? WHERE message_id = ? AND mailbox_id = ?"
-		_, err = userDB.Exec(updateQuery, updatedFlags, messageID, state.SelectedMailboxID)
+		// (keyed by UID: the same message may be in this mailbox more than once)
+		updateQuery := "UPDATE message_mailbox SET flags = ? WHERE mailbox_id = ? AND uid = ?"
+		_, err = userDB.Exec(updateQuery, updatedFlags, state.SelectedMailboxID, uid)
 		if err != nil {
 			log.Printf("Failed to update flags for message %d: %v", messageID, err)
 			continue
@@ -1144,8 +1145,8 @@ func HandleCopy(deps ServerDeps, conn net.Conn, tag string, parts []string, stat
 }
 
 // MoveMessageToMailbox moves a message from the current mailbox to a destination mailbox
-// Returns the new sequence number in the destination mailbox, or 0 if failed
-func MoveMessageToMailbox(userDB *sql.DB, messageID int64, sourceMailboxID int64, destMailboxName string, userID int64, flags string, internalDate string) error {
+// The entry to move is identified by its UID in the source mailbox
+func MoveMessageToMailbox(userDB *sql.DB, messageID int64, sourceMailboxID int64, sourceUID int64, destMailboxName string, userID int64, flags string, internalDate string) error {
 	// Get destination mailbox ID
 	var destMailboxID int64
 	err := userDB.QueryRow(`
@@ -1200,8 +1201,8 @@ func MoveMessageToMailbox(userDB *sql.DB, messageID int64, sourceMailboxID int64
 	// Delete message from source mailbox
 	_, err = tx.Exec(`
 		DELETE FROM message_mailbox
-		WHERE message_id = ? AND mailbox_id = ?
-	`, messageID, sourceMailboxID)
+		WHERE mailbox_id = ? AND uid = ?
+	`, sourceMailboxID, sourceUID)
 
 	if err != nil {
 		return fmt.Errorf("failed to delete from source: %w", err)
